@@ -139,10 +139,13 @@ def k_events(ctx, exe, proofs_ok):
     # verdicts again from Coq
     rng = ctx.rng
     seqs = []
+    pristine = set()
     for _ in range(300 if ctx.quick else 6000):
         w = random_document(rng, tags)
         if rng.random() < 0.5:
             w = perturb_events(rng, w, len(tags))
+        elif w:
+            pristine.add(tuple(w))
         if w:
             seqs.append(w)
     v = "From Coq Require Import List.\nFrom Gama Require Import GkfRun.\nImport ListNotations.\n" \
@@ -154,7 +157,15 @@ def k_events(ctx, exe, proofs_ok):
         ctx.obligation(False, "K:random documents")
         ctx.violation({"kind": "K:gkf-events", "broken": "verdicts of random documents did not evaluate", "tail": cout[-800:]}, "cases file failed", no_input=True)
     else:
-        acc += judge_documents(ctx, exe, parse_enum(cout.split("@@RAND", 1)[1]), tags, name, "random")
+        docs2 = parse_enum(cout.split("@@RAND", 1)[1])
+        acc += judge_documents(ctx, exe, docs2, tags, name, "random")
+        # the hand-written generator of the schema's element structure against the content automata regenerated from the xsd
+        off = [codes for codes, verdict, incode, inxsd in docs2 if tuple(codes) in pristine and not inxsd]
+        ctx.obligation(not off, "K:schema generator vs regenerated xsd automata (%d documents)" % len(pristine))
+        if off:
+            text, _ = render(off[0], tags, name)
+            ctx.violation({"kind": "K:gkf-events", "input": text, "events": off[0], "broken": "in_xsd_grammar (regenerated from xml/gama-local.xsd)"},
+                          "a document built after the element structure of xml/gama-local.xsd is outside the content automata regenerated from the schema")
     return acc
 
 
